@@ -310,6 +310,11 @@ def _meshes(kind, Nproc, size=2.5):
             return Mesher().Mesh_2D(Domain(Point(1, 1), Point(11, 7), size), [], ElemType.TRI3)
         if kind == "TRI3.hole":
             return Mesher().Mesh_2D(dom, [Circle(Point(5, 3), 2.0, size / 2)], ElemType.TRI3)
+        if kind == "TRI3.crack":
+            # an open crack from the left edge: the lips are pairs of coincident nodes of ONE mesh
+            from EasyFEA.Geoms import Line
+            crack = Line(Point(0.0, 3.0, isOpen=True), Point(6.0, 3.0), size / 2, isOpen=True)
+            return Mesher().Mesh_2D(dom, [], ElemType.TRI3, cracks=[crack])
         if kind == "mixed":
             # unstructured recombination leaves triangles next to quadrangles
             return Mesher().Mesh_2D(Domain(Point(), Point(10, 6), size), [Circle(Point(5, 3), 2.5, size / 2)], ElemType.QUAD4)
@@ -650,7 +655,7 @@ def build(tier, seed):
             ([("HEXA8", "elastic", 3), ("TRI3.hole", "thermal", 7), ("TETRA10", "elastic", 2)] if thorough else []):
         obs.append(Ob(f"C20.rows.{physics}.{kind}.{Nproc}", ob_rows, (kind, physics, Nproc), "X", ("EasyFEA/Simulations/_simu.py::_Simu.Assembly", "EasyFEA/FEM/_mesh.py::Mesh._Get_mpi_owned_nodes"),
                       bound="one gmsh mesh", clause="K, M, C of a part == global on the owned rows; owned-row energies and reactions sum to the global ones", timeout=1800))
-    for kind, Nproc in [("TRI3", 3), ("mixed", 4), ("QUAD8+TRI6", 5), ("TETRA4", 2), ("TRI3.offset", 3)]:
+    for kind, Nproc in [("TRI3", 3), ("mixed", 4), ("QUAD8+TRI6", 5), ("TETRA4", 2), ("TRI3.offset", 3), ("TRI3.crack", 2)]:
         obs.append(Ob(f"C20.merge.parts.{kind}.{Nproc}", ob_merge_parts, (kind, Nproc), "X", (f"{MESH}::Mesh.Merge",), bound="one gmsh mesh", clause="Merge(parts) == global mesh; mapping carries coordinates", timeout=900))
     for case in ("adjacent", "disjoint", "duplicate", "mixed-types", "nomerge", "single", "crack", "lifted", "lifted.first", "storeys", "tilted", "volume+volume"):
         obs.append(Ob(f"C20.merge.{case}", ob_merge_lists, (case,), "X", (f"{MESH}::Mesh.Merge",), bound="structured rectangles", clause="mapping[i][j] carries coordinates; merged index shared iff coincident; remapped union of elements", timeout=900))
